@@ -88,7 +88,10 @@ def dy(rng, lo, hi, bits=3):
 
 
 def sig9(x):
-    return float("%.9g" % float(x))
+    """9 significant digits; a value that is zero up to the rounding of a float difference (|x| < 1e-12, e.g. the lower
+    bound `d/k*i - tol` of a distance restraint when the two terms are equal) is zero"""
+    x = float(x)
+    return 0.0 if abs(x) < 1e-12 else float("%.9g" % x)
 
 
 Timeout = common.CaseTimeout
@@ -1358,8 +1361,20 @@ def renumber(sub, desc):
                 for it in blk["items"]:
                     if it["kind"] in ("sphere", "cylinder", "rectangle", "rw"):
                         it["start"], it["stop"] = to_id(it["start"]), to_id(it["stop"])
-        kind = sub.choice(["rotate", "rotate", "reverse", "shuffle"])
-        if kind == "rotate":
+        kind = sub.choice(["rotate", "rotate", "reverse", "shuffle", "diblock"])
+        block = None
+        if kind == "diblock" and n >= 4:
+            # REPEATED residue ids inside one molecule (two blocks numbered alike): polyply identifies a residue by
+            # (resid, resname), so the two residues that share an id must differ in their name — a build-file line
+            # then selects the copy with its name only
+            k = sub.randint(2, n - 2)
+            cand = ids[:k] + ids[:n - k] if n - k <= k else ids[:n - k][:k] + ids[:n - k]
+            pairs = [(r, name) for r, name in zip(cand, mt["resnames"])]
+            if len(set(pairs)) == len(pairs):
+                block = cand
+        if block is not None:
+            ids = block
+        elif kind == "rotate" or kind == "diblock":
             k = sub.randint(1, n - 1)
             ids = ids[k:] + ids[:k]
         elif kind == "reverse":
@@ -1367,7 +1382,40 @@ def renumber(sub, desc):
         else:
             sub.shuffle(ids)
         mt["resids"] = ids
+    # the same molecule name on a second, non-adjacent [ molecules ] line (its instances get later molecule indices,
+    # which the [ molecule ] blocks of the build file do or do not cover)
+    if len(desc["molecules"]) >= 2 and sub.random() < 0.5:
+        desc["molecules"].append((desc["molecules"][0][0], 1))
     return desc
+
+
+def gen_shared_reference(sub):
+    """one chain with SEVERAL distance restraints that share their reference residue, with nested paths, listed in
+    either order (longer first / shorter first), pairs written in either direction, sometimes a further restraint
+    with another reference; the shorter one is tight, so that it shows in the finished structure when not enforced"""
+    n = sub.randint(8, 14)
+    mt = chain_type(sub, "A", n)
+    ref = sub.choice([0, 0, 1])
+    b1 = sub.randint(ref + 3, n - 4)
+    b2 = sub.randint(b1 + 2, n - 1)
+    short = dict(kind="dist", ref=ref, target=b1, d=round(sub.choice([0.25, 0.3, 0.35]) * (b1 - ref) * STEP, 2),
+                 tol=sub.choice([0.1, 0.2]))
+    long_ = dict(kind="dist", ref=ref, target=b2, d=round(sub.choice([0.45, 0.5, 0.55]) * (b2 - ref) * STEP, 2),
+                 tol=sub.choice([0.3, 0.5]))
+    items = [long_, short] if sub.random() < 0.6 else [short, long_]
+    if b1 - ref >= 5 and sub.random() < 0.4:
+        b0 = sub.randint(ref + 2, b1 - 2)
+        items.insert(sub.randrange(3), dict(kind="dist", ref=ref, target=b0,
+                                            d=round(0.4 * (b0 - ref) * STEP, 2), tol=0.2))
+    if sub.random() < 0.3:
+        items.append(dict(kind="dist", ref=b1, target=b2, d=round(0.5 * (b2 - b1) * STEP, 2), tol=0.5))
+    for it in items:
+        if sub.random() < 0.25:
+            it["ref"], it["target"] = it["target"], it["ref"]
+    count = sub.choice([1, 1, 2])
+    box = float(max(8, int(n * STEP * 0.7) + 3))
+    return dict(moltypes=[mt], molecules=[("A", count)], box=[box] * 3,
+                build=[dict(mol="A", frm=0, to=count, items=items)], options=dict(grid_spacing=0.5))
 
 
 def e2e_cases(ctx):
@@ -1387,6 +1435,9 @@ def e2e_cases(ctx):
         flavour = ["geom", "dir", "mixed", "geom"][i % 4]
         renumbered.append(dict(stream="e2e", flavour=flavour + "-renumbered",
                                desc=tighten(sub, renumber(sub, gen_system(sub, flavour, ctx.thorough))),
+                               seed=sub.randint(0, 10 ** 6)))
+    for i in range(ctx.budget(12, 120)):
+        renumbered.append(dict(stream="e2e", flavour="dist-shared-ref", desc=gen_shared_reference(sub),
                                seed=sub.randint(0, 10 ** 6)))
     cases = renumbered + cases
     return cases
